@@ -3,6 +3,7 @@ package checks
 // C01 — a monitor-fed cache mirrors the database it monitors.
 
 import (
+	"context"
 	"encoding/json"
 	"fmt"
 	"os"
@@ -60,6 +61,8 @@ func c01Alphabet() []dbx.Txn {
 		"R 11.smap insert k2:a2", "R 11.smap delete key k2", "R 11.smap:={}", "R 11.smap[k1]:=a2 (update)", "R 11.kmap insert a1:x", "R 11.kmap delete key a1",
 		"R 11.wset:=all", "R 11.wopt:=a2", "R 11.wmap insert k1:a1", "del PR p1 + R r1.sset:=[]", "R r1.sset-=a1 + del PR p1", "del PR p1",
 		"R r1.cnt:=5", "R r1.cnt:=0", "R r1.cnt+=1", "R r1.cnt-=1", "R r1.cnt*=0", "R r1.name:=\"\"", "rename N1 a1", "N1 a1.next:=[]", "ins N2 b1 + N1 a1.next:=",
+		"R r1.smap[k1] changed then removed + cnt:=8", "R r1.kmap[a1] changed then removed + cnt:=8", "R r1.wmap[k1] removed then re-added as a2 + cnt:=8", "R r1.wmap[k1] changed and changed back + cnt:=8", "R r1.wset a1 removed then added back + cnt:=8",
+		"ins N3 c1->c2 + R 11.s3:=c1 w3:=[c1,c2]",
 		"ins R2 q1 + new N1 a1", "del R2 q1", "ins N3 c1<->c2 + R 11.s3:=c1", "R 11.s3:=[]", "del all N1",
 	} {
 		want[n] = true
@@ -143,7 +146,7 @@ func runC01(r *ev.Run) {
 		r.SetDeadline(240 * 1e9)
 	}
 	r.Set("rule", "state = history of committed S-ref transactions on a real server listening on a unix socket; a session connects a real client, establishes its monitor(s) at the end of the history (methods monitor / monitor_cond / monitor_cond_since; all tables, a column subset, or a first monitor plus an additional one) and then commits one or two more transactions (by another client, or by the client itself), optionally with the Monitor call parked after its reply while the next notification is handled; after every transaction returns the cache is compared with the database on the monitored tables and columns; non-trivial = session step in which a monitored row changed")
-	r.Assume("a server acknowledges a transaction only after every monitor acknowledged its notification, so 'all notifications processed' holds when Transact returns; no sleeps are used")
+	r.Assume("'every notification sent so far has been processed' is established by an echo round trip of the client after the server-side transaction has returned (the client handles incoming messages in order); for the client's own transaction no barrier is used: the property requires the cache to be current when Transact returns; no sleeps are used")
 	r.Assume("one cache per connection: overlapping monitors on the same table are out of scope")
 	dbs := srefDB(false)
 	ref := rm.FromOvsdb(dbs.Schema)
@@ -285,6 +288,14 @@ func runC01(r *ev.Run) {
 			defer c.Close()
 			pz := e2e.NewPauser(c)
 			defer pz.Detach(c)
+			// "every notification sent so far has been processed": the client handles incoming messages one at a time, so once an
+			// echo round trip issued after the server-side transaction has returned, the notifications the server sent before
+			// are behind it (this does not rely on the server waiting for the monitors' acknowledgements)
+			barrier := func() {
+				ectx, ecancel := context.WithTimeout(context.Background(), 10*time.Second)
+				_ = c.Echo(ectx)
+				ecancel()
+			}
 			monitored := map[string][]string{}
 			feature := fmt.Sprintf("%s.%s", s.Method, strings.Fields(s.cfg().name)[0])
 			cse := func(msg string) interface{} {
@@ -336,6 +347,7 @@ func runC01(r *ev.Run) {
 						merr = <-errCh
 					}
 					<-txnDone
+					barrier()
 					if merr != nil {
 						r.Violation("c01.monitor-error."+feature, fmt.Sprintf("%s [%s]: Monitor: %v", name(), s, merr), cse(merr.Error()))
 						return
@@ -358,6 +370,7 @@ func runC01(r *ev.Run) {
 						r.Violation("c01.monitor-error."+feature, fmt.Sprintf("%s [%s]: Monitor: %v", name(), s, err), cse(err.Error()))
 						return
 					}
+					barrier()
 					pendingTxn = make(chan error, 1)
 					pendingTxn <- nil
 				} else {
@@ -403,6 +416,7 @@ func runC01(r *ev.Run) {
 					_, _ = c.Transact(ctx, ops...)
 				} else {
 					_, _ = env.Sys.TransactRef(t.Ops)
+					barrier()
 				}
 				post := env.Sys.State()
 				r.Add("transitions", 1)
